@@ -113,7 +113,11 @@ def run_case(case, root):
         fh.write(conf)
     evlog = os.path.join(wd, "events.log")
     env = dm.san_env(detect_leaks=False)
-    env["VERIF_GRAPH"] = ";".join("%s:%s" % (k, ",".join(v)) for k, v in sorted(graph.items()) if v)
+    # "respell": dependencies [a, b] that a declares with b's name in other letter case (module names are compared
+    # without regard to case, src/module.c + set_compare_charp); only the text handed to module_depends() changes,
+    # the oracle keeps speaking about b
+    resp = {(a, b) for a, b in (case.get("respell") or [])}
+    env["VERIF_GRAPH"] = ";".join("%s:%s" % (k, ",".join((d.upper() if (k, d) in resp else d) for d in v)) for k, v in sorted(graph.items()) if v)
     env["VERIF_EVLOG"] = evlog
     env["VERIF_ANTI"] = ";".join("%s:%s" % (k, ",".join(v)) for k, v in sorted(anti.items()) if v)
     env["VERIF_BACKEND"] = ("core:" + ",".join(backend)) if backend else ""
@@ -268,6 +272,12 @@ def graph_s(draw, pid, tier, opts=None):
         case["anti"] = anti
     if k in (0, 1) and draw(st.booleans()):
         case["backend"] = draw(st.lists(st.sampled_from(names), min_size=1, max_size=3))     # a name listed twice calls module_is_backend() twice
+    if not cyclic and missing is None and not case.get("anti") and draw(st.integers(0, 3)) == 0:
+        # a dependency on the module listed first (constructed before anything that depends on it, since the graph
+        # is acyclic) named in capitals by the dependent: it must be found under the daemon's own name comparison
+        resp = [[a, lst[0]] for a in graph if lst[0] in graph[a]]
+        if resp:
+            case["respell"] = resp
     if want_call:
         edges = [(a, b) for a in graph for b in graph[a]]      # dependencies declared by the dependent itself
         if edges:
@@ -355,6 +365,11 @@ def enum_cases(tier):
                     yield {"graph": graph, "backend": list(be), "list": list(lst), "missing": None}
                     if r == 1:
                         yield {"graph": graph, "backend": list(be) * 2, "list": list(lst), "missing": None}    # module_is_backend() called twice
+        # dependencies on the module listed first, declared with its name in capitals (see "respell" in run_case)
+        for lst in itertools.permutations(names):
+            resp = [[a, lst[0]] for a in graph if lst[0] in graph[a]]
+            if resp:
+                yield {"graph": graph, "list": list(lst), "missing": None, "respell": resp}
     if tier == "quick":
         # every DAG on 4 labelled modules, listed in full in both orders (the thorough tier adds every single root)
         names = NAMES[:4]
